@@ -23,6 +23,13 @@ PINNED = [("<math><mo>(</mo><mn>101011</mn><mo>)</mo></math>", ["ZoomIn", "MoveN
           ("<math><mo>[</mo><mtable><mtr><mtd><mn>3</mn></mtd><mtd><mn>1</mn></mtd></mtr><mtr><mtd><mn>0</mn></mtd><mtd><mn>2</mn></mtd></mtr></mtable><mo>]</mo></math>",
            ["ZoomInAll", "MoveNext", "MoveNext"]),
           ("<math><msubsup><mi>V</mi><mi>n</mi><mi>k</mi></msubsup><mo>=</mo><mn>1</mn></math>", ["ZoomIn", "ZoomIn", "ZoomOut", "MoveNext"])]
+# walks whose moves land on a node that says nothing (an invisible times, function application) so that the library moves on by
+# itself, also straight out of a 2-D structure - in every configuration
+NAV_WALKS = [("<math><mfrac><mn>1</mn><mn>2</mn></mfrac><mi>x</mi></math>", ["ZoomIn", "ZoomIn", "MoveNext", "MoveNext", "MoveNext", "MovePrevious", "MovePrevious"]),
+             ("<math><mn>2</mn><mi>x</mi><mi>y</mi></math>", ["ZoomIn", "MoveNext", "MoveNext", "MoveNext", "MovePrevious"]),
+             ("<math><msqrt><mn>3</mn></msqrt><mi>x</mi><mo>+</mo><mi>sin</mi><mi>y</mi></math>", ["ZoomIn", "ZoomIn", "MoveNext", "MoveNext", "MoveNext", "MoveNext", "MoveNext"]),
+             ("<math><msup><mi>x</mi><mn>2</mn></msup><mi>y</mi><mo>=</mo><mi>f</mi><mo>(</mo><mi>t</mi><mo>)</mo></math>",
+              ["ZoomIn", "ZoomIn", "MoveNext", "MoveNext", "MoveNext", "MoveNext", "ZoomIn", "MoveNext", "MoveNext"])]
 TOKENS = ["<math><mtext>if&#x2064;so</mtext><mo>+</mo><mi>x</mi></math>", "<math><mi>up&#x2062;to</mi><mo>=</mo><mn>3</mn></math>",
           "<math><mtext>a&#x2061;b&#x2063;c</mtext></math>", "<math><mi>&#xE123;</mi><mo>+</mo><mn>1</mn></math>",
           "<math><mn>1&#x2064;2</mn><mo>+</mo><mi>NaCl</mi></math>"]
@@ -47,6 +54,8 @@ def configs(rng, tier):
         c["CapitalLetters_Beep"] = "true" if i % 3 == 0 else "false"
         c["CapitalLetters_Pitch"] = ["0", "20", "-15"][i % 3]
         c["MathRate"] = ["100", "150"][i % 2]
+        c["NavVerbosity"] = ["Medium", "Verbose", "Terse"][i % 3]
+        c["NavMode"] = ["Enhanced", "Enhanced", "Simple", "Character"][(i // 3) % 4]
         c["PauseFactor"] = ["100", "300", "0"][(i // 2) % 3]
     return out
 
@@ -129,7 +138,7 @@ def run(tier):
     n_expr, n_chars = (60, 120) if tier == "quick" else (min(len(corpus), 2200), 100000)
     scripts = []
     for ci, cfg in enumerate(cfgs):
-        exprs = rng.sample(corpus, n_expr) + TOKENS + [pe for pe, _ in PINNED]
+        exprs = rng.sample(corpus, n_expr) + TOKENS + [pe for pe, _ in PINNED + NAV_WALKS]
         cases = [(e, "suite") for e in exprs]
         if tier == "thorough" and cfg["Verbosity"] != "Medium":
             pass
@@ -155,7 +164,7 @@ def run(tier):
                 if origin == "suite":
                     ops.append({"op": "overview"})
                     meta.append(("get", "overview"))
-                    walk = [w for pe, w in PINNED if pe == e]
+                    walk = [w for pe, w in PINNED + NAV_WALKS if pe == e]
                     if walk or rng.random() < (0.15 if tier == "quick" else 0.5):
                         ops.append({"op": "nav_id"})
                         meta.append(("pos",))
@@ -203,6 +212,8 @@ def run(tier):
                 if m_rd:        # these speak the neighbour without moving to it
                     visible = node_visible(cur["tree"], neighbour(cur["tree"], cur["pos"], m_rd.group(2)))
                 where = f"{'stayed' if after == cur['pos'] else 'moved'};{edge_in_brackets(cur['tree'], cur['pos'])}"
+                if after == cur["pos"] and s["cfg"].get("NavVerbosity") == "Terse" and rr["v"] == "":
+                    continue        # a command that cannot move says so only from NavVerbosity Medium on
             events.append({"getter": getter, "res": rr["r"], "visible": visible, "out": C.cps(rr["v"]) if rr["r"] == "ok" else [], "inp": cur["inp"]})
             back.append((si, oi, cur["expr"], cur["origin"], where))
     rejects, _, _ = C.validate_trace("Trace_Speech", "Trace_Speech.cfg", events, wd, timeout=3000, heap="12g")
